@@ -67,7 +67,7 @@ def write_if_changed(path, content):
 # ----------------------------------------------------------------------------
 # build steps
 # ----------------------------------------------------------------------------
-def build_harness(log):
+def build_harness(log, race=False):
     h = os.path.join(ROOT, "harness")
     shutil.copyfile(os.path.join(REPO, "go.sum"), os.path.join(h, "go.sum"))
     cmd = ["go", "build", "-tags", "verif", "-o", "bin/wh", "./cmd/wh"]
@@ -80,6 +80,14 @@ def build_harness(log):
     log["harness_build_s"] = round(dt, 1)
     if rc != 0:
         return False, out
+    if race:
+        # the same harness built with the Go race detector (stream race06 runs its cases in it)
+        rcmd = [c if c != "bin/wh" else "bin/wh-race" for c in cmd]
+        rcmd.insert(2, "-race")
+        rc, out, dt = sh(rcmd, cwd=h, env=dict(GOENV, CGO_ENABLED="1"), timeout=900)
+        log["harness_race_build_s"] = round(dt, 1)
+        if rc != 0:
+            return False, out
     return True, ""
 
 
@@ -411,7 +419,7 @@ def main():
     proof = {"ok": False, "theorems": [], "examples": [], "axioms": [], "closed": 0, "prints": 0}
     try:
         with Lock("build"):
-            ok, out = build_harness(log)
+            ok, out = build_harness(log, race=P.get("race", False))
             if not ok:
                 problems.append({"kind": "tie", "what": "harness does not build against /repo", "detail": out[-2000:]})
             else:
